@@ -53,4 +53,4 @@ PY
     ;;
 esac
 cd "$VERIF/harness"
-go build $MODFLAG -race -overlay "$ovdir/overlay.json" -o "$out" "./cmd/${prop}s"
+go build -trimpath $MODFLAG -race -overlay "$ovdir/overlay.json" -o "$out" "./cmd/${prop}s"
